@@ -19,15 +19,22 @@ pub fn cli_dir() -> PathBuf {
 pub struct Ran {
     pub code: Option<i32>,
     pub stderr: String,
+    pub stdout: String,
     pub timed_out: bool,
 }
 
 /// Run `argv[0]` (resolved inside `dir`) with the remaining arguments; 60 s cap.
 pub fn run_in(dir: &Path, argv: &[String]) -> Ran {
     let exe = dir.join(&argv[0]);
-    let mut child = match Command::new(&exe).args(&argv[1..]).current_dir(dir).stdin(Stdio::null()).stdout(Stdio::null()).stderr(Stdio::piped()).spawn() {
+    // stdout goes to a file (the info tools print there; a pipe could fill up)
+    let out_path = dir.join(".stdout");
+    let out_file = match std::fs::File::create(&out_path) {
+        Ok(f) => f,
+        Err(e) => return Ran { code: None, stderr: format!("HARNESS stdout file: {}", e), stdout: String::new(), timed_out: false },
+    };
+    let mut child = match Command::new(&exe).args(&argv[1..]).current_dir(dir).stdin(Stdio::null()).stdout(Stdio::from(out_file)).stderr(Stdio::piped()).spawn() {
         Ok(c) => c,
-        Err(e) => return Ran { code: None, stderr: format!("HARNESS spawn {:?}: {}", exe, e), timed_out: false },
+        Err(e) => return Ran { code: None, stderr: format!("HARNESS spawn {:?}: {}", exe, e), stdout: String::new(), timed_out: false },
     };
     match child.wait_timeout(Duration::from_secs(60)).unwrap() {
         Some(st) => {
@@ -36,12 +43,12 @@ pub fn run_in(dir: &Path, argv: &[String]) -> Ran {
                 use std::io::Read;
                 let _ = s.read_to_string(&mut err);
             }
-            Ran { code: st.code(), stderr: err, timed_out: false }
+            Ran { code: st.code(), stderr: err, stdout: std::fs::read_to_string(&out_path).unwrap_or_default(), timed_out: false }
         }
         None => {
             let _ = child.kill();
             let _ = child.wait();
-            Ran { code: None, stderr: String::new(), timed_out: true }
+            Ran { code: None, stderr: String::new(), stdout: String::new(), timed_out: true }
         }
     }
 }
@@ -989,5 +996,108 @@ pub fn c13_tool(t: &RefuseTool, out: &mut Outcome) {
         out.fail("tool_exit_0_on_invalid_input", &tags, format!("{:?}: exit 0 for unrepresentable input ({}); stderr {}", argv, t.what, r.stderr.chars().take(200).collect::<String>()));
     } else {
         out.count("tool_invalid_refused", 1);
+    }
+}
+
+// =============================================================================================
+// C06 tool part: bigwiginfo / bigbedinfo report the stored summary
+
+#[derive(Clone, Debug, Serialize, Deserialize)]
+pub struct InfoTool {
+    pub bed: bool,
+    /// covered spans on one long chromosome (value / depth 1 per span index + 1 for bigWig)
+    pub spans: Vec<(u32, u32)>,
+}
+
+pub fn info_tool_cases() -> Vec<InfoTool> {
+    let mut v = vec![];
+    // totals whose three-digit groups take every padding shape: 5, 1,005, 12,003, 1,000,007,
+    // 1,050,000, 999, 1,000, 2,030,405
+    let shapes: Vec<Vec<(u32, u32)>> = vec![
+        vec![(0, 5)],
+        vec![(0, 1005)],
+        vec![(10, 12013)],
+        vec![(0, 1_000_000), (1_500_000, 1_500_007)],
+        vec![(0, 1_050_000)],
+        vec![(1, 1000)],
+        vec![(0, 1000)],
+        vec![(0, 2_000_000), (2_100_000, 2_130_000), (2_200_000, 2_200_405)],
+        vec![(0, 50), (50, 60), (100, 101)],
+    ];
+    for bed in [false, true] {
+        for sp in &shapes {
+            v.push(InfoTool { bed, spans: sp.clone() });
+        }
+    }
+    v
+}
+
+pub fn c06_tool(t: &InfoTool, out: &mut Outcome) {
+    let wd = workdir();
+    let dir = wd.path();
+    let size = 3_000_000u32;
+    let spec = EncSpec {
+        bed: t.bed,
+        le: true,
+        compress: true,
+        version: 4,
+        chroms: vec![EncChrom {
+            name: s("chr1"),
+            size,
+            wig: if t.bed { vec![] } else { vec![WigSec::T1(t.spans.iter().enumerate().map(|(i, (a, b))| (*a, *b, i as f32 + 1.0)).collect())] },
+            bed: if t.bed { vec![t.spans.iter().map(|(a, b)| (*a, *b, s("n"))).collect()] } else { vec![] },
+        }],
+        chrom_block: 64,
+        chrom_level_order: false,
+        fanout: 4,
+        placement: Placement::LevelOrder,
+        zooms: vec![],
+        zoom_ips: 4,
+        zoom_blocks_span_chroms: false,
+        trailing_magic: true,
+        index_last: false,
+        autosql: None,
+    };
+    let enc = encode(&spec);
+    std::fs::write(dir.join("in.bb"), &enc.bytes).unwrap();
+    let (bases, mn, mx, sum, _sq) = enc.summary.unwrap();
+    let argv = vec![if t.bed { s("bigbedinfo") } else { s("bigwiginfo") }, s("in.bb")];
+    let r = run_in(dir, &argv);
+    out.count("tool_info_runs", 1);
+    let tags = vec![if t.bed { s("bigbedinfo") } else { s("bigwiginfo") }];
+    if r.stderr.starts_with("HARNESS") {
+        out.fail("harness_panic", &[], r.stderr);
+        return;
+    }
+    if r.timed_out || r.code != Some(0) {
+        out.fail("info_tool_failed", &tags, format!("{:?}: exit {:?} stderr {}", argv, r.code, r.stderr.chars().take(300).collect::<String>()));
+        return;
+    }
+    let field = |name: &str| -> Option<String> { r.stdout.lines().find_map(|l| l.strip_prefix(name).map(|x| x.trim().to_string())) };
+    // the covered-base total, grouped in threes by commas
+    let mut want = String::new();
+    let digits = bases.to_string();
+    for (i, ch) in digits.chars().enumerate() {
+        if i > 0 && (digits.len() - i) % 3 == 0 {
+            want.push(',');
+        }
+        want.push(ch);
+    }
+    match field("basesCovered:") {
+        Some(g) if g == want => {}
+        other => out.fail("info_tool_reports_wrong_summary", &tags, format!("basesCovered printed as {:?}, the file's total summary says {} ({})", other, bases, want)),
+    }
+    let (minname, maxname, meanname) = if t.bed { ("minDepth:", "maxDepth:", "meanDepth:") } else { ("min:", "max:", "mean:") };
+    for (name, val) in [(minname, mn), (maxname, mx), (meanname, sum / bases as f64)] {
+        match field(name) {
+            Some(g) if g == format!("{:.6}", val) => {}
+            other => out.fail("info_tool_reports_wrong_summary", &tags, format!("{} printed as {:?}, the file's total summary gives {:.6}", name, other, val)),
+        }
+    }
+    if t.bed {
+        match field("itemCount:") {
+            Some(g) if g == enc.data_count.to_string() => {}
+            other => out.fail("info_tool_reports_wrong_summary", &tags, format!("itemCount printed as {:?}, file has {}", other, enc.data_count)),
+        }
     }
 }
